@@ -3,7 +3,9 @@ import os
 import re
 from fractions import Fraction
 
-from vlib.core import Check, Family, REPO, LEAN
+from vlib.core import Check, Family
+from vlib.core import REPO, LEAN
+from vlib.gentie import gentie_step
 
 
 def unit_constants(check, ctx):
@@ -53,7 +55,7 @@ CHECK = Check(
     props_modules=["OW.Props.C16.Conversion", "OW.Props.C16.Partition", "OW.Props.C16.LoadGen",
                    "OW.Props.C16.Sediment", "OW.Props.C16.Usle"],
     extra_lake_targets=["OW.Props.C16"],
-    pre_steps=[unit_constants],
+    pre_steps=[gentie_step, unit_constants],
     families=[
         Family("K", rtol=None, args=["models=" + EXACT, "prop=C16", "n=150"], label="K-exact"),
         Family("K", rtol=1e-9, atol_scale=1e-12, args=["models=" + POW, "prop=C16", "n=250"], label="K-tol"),
